@@ -226,3 +226,9 @@ def run(chk):  # noqa: F811
     r1_producer(chk)
     r2_consumer(chk)
     r3(chk)
+    r4 = chk.rule("R4", "no counter update of the receive path is decided by a separate load", "T7 atomic check-then-act",
+                  "in ReadyPipeQueue, the ingress engines, the ROUTER held-batch gate and WaitGroup no fetch_add/fetch_sub/store is guarded by an earlier plain load() of the same atomic "
+                  "(the arm / re-arm decisions must use the value the read-modify-write returns); reviewed exceptions carry their reason")
+    common.rule_no_atomic_check_then_act(chk, r4, r"(patterns::ready_pipe_queue|patterns::anonymous_ingress|patterns::addressed_ingress|runtime::waitgroup|socket::router_socket)::",
+                                         reviewed={("router_socket::RouterSocket::take_finalized_held", "held_count"): "fast-path emptiness test only; the decrement is tied to the pop done under the held_ingress mutex"},
+                                         floor_atomics=25)
